@@ -773,7 +773,7 @@ pub fn gen_c05(seed: u64, thorough: bool, only: Option<u64>, out: &mut Out) {
       let m = { let l_ = *r.pick(&[0usize, 1, 4, 32, 170]); r.bytes(l_) };
       let coins = { let l_ = *r.pick(&[0usize, 4, 32]); r.bytes(l_) };
       // group 0: a non-empty threshold-1 sharing (witness of t1-share-point); group 1: an empty sharing
-      // (witness of empty-sharing); elsewhere whatever the stream gives
+      // (witness of short-sharing); elsewhere whatever the stream gives
       let (m, coins) = if gi == 0 && k == 0 && m.is_empty() { (vec![7u8; 4], coins) } else if gi == 1 && k == 0 { (vec![], vec![]) } else { (m, coins) };
       let c = adss::Commune::new(t, m.clone(), coins, None);
       let n = t as usize + 1 + (k == 0) as usize;
@@ -781,9 +781,11 @@ pub fn gen_c05(seed: u64, thorough: bool, only: Option<u64>, out: &mut Out) {
       sharings.push((t, m, sh));
     }
     let (t0, m0) = (&sharings[0].0.clone(), &sharings[0].1.clone());
-    let empty_sharing = {
+    // fewer than 16 bytes of plaintext (message + coins) bind the 16-byte sharing key: a wrong key decrypts them to the
+    // same values with probability 2^(-8n) - always for n = 0 (known finding C05/short-sharing)
+    let (short_sharing, plain_len) = {
       let f = split_share(&sharings[0].2[0]).unwrap();
-      f.c.is_empty() && f.d.is_empty()
+      (f.c.len() + f.d.len() < 16, f.c.len() + f.d.len())
     };
     let emit = |col: &[Vec<u8>], first_m: Option<&Vec<u8>>, what: String, out: &mut Out| {
       let obs = match decode_all(col) {
@@ -798,8 +800,8 @@ pub fn gen_c05(seed: u64, thorough: bool, only: Option<u64>, out: &mut Out) {
         match first_m {
           Some(m) if obs.starts_with(&format!("ok {} ", hex(m))) => Ok(()),
           Some(_) => Err(format!("{}: recovery returned a message other than the first share's", what)),
-          None if empty_sharing && (what.contains("share point") || what.contains("share value")) && obs.starts_with(&format!("ok {} ", hex(m0))) => {
-            Err("empty-sharing: message and coins are both empty, so nothing depends on the sharing key and an altered share point / value of the first share is accepted (the right, empty, message is returned)".to_string())
+          None if short_sharing && (what.contains("share point") || what.contains("share value")) && obs.starts_with(&format!("ok {} ", hex(m0))) => {
+            Err(format!("short-sharing: message and coins together have {} bytes (< 16), so the sharing key is bound only through them and an altered share point / value of the first share is accepted when the wrong key decrypts them alike (always for 0 bytes); the right message is returned", plain_len))
           }
           None if *t0 == 1 && what.contains("share point") && obs.starts_with(&format!("ok {} ", hex(m0))) => {
             Err("t1-share-point: at threshold 1 an altered share point of the first share is accepted (the right message is returned)".to_string())
